@@ -1,4 +1,668 @@
-use serde_json::{json, Value};
-pub fn run(_scn: &Value) -> Value { json!({"kind": "unimplemented"}) }
+//! C15 — the generated OpenAPI document is valid and describes exactly the application.
+//!
+//! Scenario (vocabulary of specs/RouterApp.tla extended by specs/OpenApi.tla):
+//!   {"apps":[{"fangs":[kind..],"items":[{"t":"route","segs":[{"k":"S","s":[chars]}|{"k":"P","s":[name chars]}],
+//!                                         "methods":[..],"local":[kind..],"h":id,"app":0,"sig":{"pv","ex","rt"}}
+//!                                        |{"t":"mount","segs":[..],"app":k,..}]}..], "seed":n}
+//!   fang kinds: "jwt" (JWT, Authorization: Bearer), "jwth" (JWT, token in header X-Token, documented as apiKey/header),
+//!               "jwtc" (JWT, token in cookie `token`, documented with APIKey::cookie), "basic" (BasicAuth), "tag" (openapi::Tag),
+//!               "plain" (a fang that only passes through).
+//!   sig: handler signature from the catalogue compiled below (pv = path params of the handler, ex = extractors, rt = return type).
+//! The application is assembled through the public Route/Ohkami API, the REAL `Ohkami::__openapi_document_bytes__`
+//! produces the document, which is parsed with serde_json and FLATTENED into facts (nothing here judges them:
+//! specs/Trace_OpenApi.tla does).  Then one request per documented operation is built FROM THE DOCUMENT and sent
+//! through the real router (reachability), and one request per registered (route, method) is built from the scenario.
+//!
+//! Trusted base of this module: the concretisation table (abstract chars / param-name tokens -> text), the catalogue
+//! (the Rust types behind the signature tags and, in specs/OpenApi.tla, the table of what each tag means), the
+//! flattening (`flatten`, `schema_nodes`, `kwfact`), the JSON-pointer resolver, the instance builder that derives a
+//! request from the document, and `util::parse_response`.
+use crate::util::{self, arr, i, s, Rng};
+use base64::Engine as _;
+use ohkami::__verif as v;
+use ohkami::fang::{BasicAuth, JWT};
+use ohkami::format::{Multipart, Query, URLEncoded, JSON};
+use ohkami::handler::{Handler, IntoHandler};
+use ohkami::openapi::{self, Schema};
+use ohkami::typed::status;
+use ohkami::{FromParam, FromRequest, IntoResponse, Ohkami, Request, Response};
+use serde::{Deserialize, Serialize};
+use serde_json::{json, Map, Value};
+use std::cell::RefCell;
+
+thread_local! { static LOG: RefCell<Vec<i64>> = const { RefCell::new(Vec::new()) }; }
+fn ran(id: i64) { LOG.with(|l| l.borrow_mut().push(id)) }
+
+// =============================================================================================== catalogue: types
+#[derive(Deserialize, Schema)]
 #[allow(dead_code)]
-pub fn gen(_rng: &mut crate::util::Rng, i: usize) -> Value { json!({"id": i}) }
+struct QPlain { q: String, n: Option<u32> }
+#[derive(Deserialize, Schema)]
+#[openapi(component)]
+#[allow(dead_code)]
+struct QComp { page: u32, tag: Option<String> }
+#[derive(Deserialize, Schema)]
+#[allow(dead_code)]
+struct BPlain { name: String, age: u32, tags: Vec<String>, nick: Option<String> }
+#[derive(Deserialize, Serialize, Schema, Clone)]
+#[openapi(component)]
+struct Owner { id: u32, name: String }
+#[derive(Deserialize, Schema)]
+#[openapi(component)]
+#[allow(dead_code)]
+struct BComp { title: String, owner: Owner, co: Vec<Owner> }
+#[derive(Deserialize, Schema)]
+#[allow(dead_code)]
+struct BFlag { name: String, #[openapi(schema_with = "flag_schema")] active: bool }
+fn flag_schema() -> impl Into<openapi::SchemaRef> { openapi::bool() }
+#[derive(Deserialize, Schema)]
+#[allow(dead_code)]
+struct BNum {
+    #[openapi(schema_with = "age_schema")] age: u32,
+    #[openapi(schema_with = "codes_schema")] codes: Vec<u32>,
+}
+fn age_schema() -> impl Into<openapi::SchemaRef> { openapi::integer().minimum(0).exclusiveMaximum(150).multipleOf(1) }
+fn codes_schema() -> impl Into<openapi::SchemaRef> { openapi::array(openapi::integer()).minItems(0).maxItems(8).uniqueItems() }
+#[derive(Deserialize, Schema)]
+#[allow(dead_code)]
+struct FPlain { user: String, n: u32 }
+#[derive(Deserialize, Schema)]
+#[allow(dead_code)]
+struct MPlain { title: String, note: Option<String> }
+#[derive(Serialize, Schema)]
+struct RPlain { id: u32, msg: String, extra: Option<String> }
+#[derive(Serialize, Schema)]
+#[openapi(component)]
+struct RComp { id: u32, owner: Owner }
+
+enum MyError { #[allow(dead_code)] Bad, #[allow(dead_code)] Internal }
+impl IntoResponse for MyError {
+    fn into_response(self) -> Response { match self { MyError::Bad => Response::BadRequest(), MyError::Internal => Response::InternalServerError() } }
+    fn openapi_responses() -> openapi::Responses {
+        openapi::Responses::new([
+            (400, openapi::Response::when("bad input")),
+            (500, openapi::Response::when("internal").content("text/plain", openapi::string())),
+        ])
+    }
+}
+
+trait Ret: IntoResponse + Send + 'static { fn make(id: i64) -> Self; }
+fn rplain(id: i64) -> RPlain { RPlain { id: id as u32, msg: "m".into(), extra: None } }
+fn rcomp(id: i64) -> RComp { RComp { id: id as u32, owner: Owner { id: 1, name: "o".into() } } }
+impl Ret for &'static str { fn make(_: i64) -> Self { "ok" } }
+impl Ret for String { fn make(id: i64) -> Self { format!("h{id}") } }
+impl Ret for JSON<RPlain> { fn make(id: i64) -> Self { JSON(rplain(id)) } }
+impl Ret for JSON<RComp> { fn make(id: i64) -> Self { JSON(rcomp(id)) } }
+impl Ret for JSON<Vec<RComp>> { fn make(id: i64) -> Self { JSON(vec![rcomp(id)]) } }
+impl Ret for status::Created<JSON<RPlain>> { fn make(id: i64) -> Self { status::Created(JSON(rplain(id))) } }
+impl Ret for status::NoContent { fn make(_: i64) -> Self { status::NoContent } }
+impl Ret for Result<JSON<RPlain>, MyError> { fn make(id: i64) -> Self { Ok(JSON(rplain(id))) } }
+impl Ret for Result<status::Created<JSON<RComp>>, MyError> { fn make(id: i64) -> Self { Ok(status::Created(JSON(rcomp(id)))) } }
+
+// =============================================================================================== catalogue: handlers
+/// a handler with its type erased the way `#[openapi::operation]` does it (public `IntoHandler` for a unit-like value)
+#[derive(Clone)]
+struct Erased { n: usize, h: Handler }
+impl IntoHandler<Erased> for Erased {
+    fn n_params(&self) -> usize { self.n }
+    fn into_handler(self) -> Handler { self.h }
+}
+fn e<T, H: IntoHandler<T>>(h: H) -> Erased { Erased { n: h.n_params(), h: h.into_handler() } }
+
+// one generic constructor per IntoHandler impl family of ohkami/src/fang/handler/into_handler.rs
+fn f0_0<R: Ret>(id: i64) -> Erased { e::<fn() -> R, _>(move || async move { ran(id); R::make(id) }) }
+fn f0_1<I1: FromRequest<'static> + 'static, R: Ret>(id: i64) -> Erased {
+    e::<fn(I1) -> R, _>(move |_a: I1| async move { ran(id); R::make(id) })
+}
+fn f0_2<I1: FromRequest<'static> + 'static, I2: FromRequest<'static> + 'static, R: Ret>(id: i64) -> Erased {
+    e::<fn(I1, I2) -> R, _>(move |_a: I1, _b: I2| async move { ran(id); R::make(id) })
+}
+fn fb_0<P1: FromParam<'static> + 'static, R: Ret>(id: i64) -> Erased {
+    e::<fn((P1,)) -> R, _>(move |_p: P1| async move { ran(id); R::make(id) })
+}
+fn fb_1<P1: FromParam<'static> + 'static, I1: FromRequest<'static> + 'static, R: Ret>(id: i64) -> Erased {
+    e::<fn(((P1,),), I1) -> R, _>(move |_p: P1, _a: I1| async move { ran(id); R::make(id) })
+}
+fn fb_2<P1: FromParam<'static> + 'static, I1: FromRequest<'static> + 'static, I2: FromRequest<'static> + 'static, R: Ret>(id: i64) -> Erased {
+    e::<fn(((P1,),), I1, I2) -> R, _>(move |_p: P1, _a: I1, _b: I2| async move { ran(id); R::make(id) })
+}
+fn ft_0<P1: FromParam<'static> + 'static, R: Ret>(id: i64) -> Erased {
+    e::<fn(((P1,),)) -> R, _>(move |_p: (P1,)| async move { ran(id); R::make(id) })
+}
+fn ft_1<P1: FromParam<'static> + 'static, I1: FromRequest<'static> + 'static, R: Ret>(id: i64) -> Erased {
+    e::<fn((P1,), I1) -> R, _>(move |_p: (P1,), _a: I1| async move { ran(id); R::make(id) })
+}
+fn ft_2<P1: FromParam<'static> + 'static, I1: FromRequest<'static> + 'static, I2: FromRequest<'static> + 'static, R: Ret>(id: i64) -> Erased {
+    e::<fn((P1,), I1, I2) -> R, _>(move |_p: (P1,), _a: I1, _b: I2| async move { ran(id); R::make(id) })
+}
+fn f2_0<P1: FromParam<'static> + 'static, P2: FromParam<'static> + 'static, R: Ret>(id: i64) -> Erased {
+    e::<fn(((P1, P2),)) -> R, _>(move |_p: (P1, P2)| async move { ran(id); R::make(id) })
+}
+fn f2_1<P1: FromParam<'static> + 'static, P2: FromParam<'static> + 'static, I1: FromRequest<'static> + 'static, R: Ret>(id: i64) -> Erased {
+    e::<fn((P1, P2), I1) -> R, _>(move |_p: (P1, P2), _a: I1| async move { ran(id); R::make(id) })
+}
+fn f2_2<P1: FromParam<'static> + 'static, P2: FromParam<'static> + 'static, I1: FromRequest<'static> + 'static, I2: FromRequest<'static> + 'static, R: Ret>(id: i64) -> Erased {
+    e::<fn((P1, P2), I1, I2) -> R, _>(move |_p: (P1, P2), _a: I1, _b: I2| async move { ran(id); R::make(id) })
+}
+// named functions (the generator derives `operationId` from the function name); the id is a const parameter
+async fn named_text<const ID: i64>() -> &'static str { ran(ID); "ok" }
+async fn named_item<const ID: i64>(_p: u32) -> JSON<RPlain> { ran(ID); JSON(rplain(ID)) }
+
+/// return-type level: every return tag ("full") or the three basic ones ("core")
+macro_rules! with_rt {
+    (full, $rt:expr, $id:expr, $f:ident, [$($g:ty),*]) => { match $rt {
+        "text" => $f::<$($g,)* &'static str>($id), "string" => $f::<$($g,)* String>($id),
+        "json" => $f::<$($g,)* JSON<RPlain>>($id), "jsonc" => $f::<$($g,)* JSON<RComp>>($id), "jvec" => $f::<$($g,)* JSON<Vec<RComp>>>($id),
+        "created" => $f::<$($g,)* status::Created<JSON<RPlain>>>($id), "nocontent" => $f::<$($g,)* status::NoContent>($id),
+        "result" => $f::<$($g,)* Result<JSON<RPlain>, MyError>>($id), "resultc" => $f::<$($g,)* Result<status::Created<JSON<RComp>>, MyError>>($id),
+        _ => return None } };
+    (core, $rt:expr, $id:expr, $f:ident, [$($g:ty),*]) => { match $rt {
+        "text" => $f::<$($g,)* &'static str>($id), "json" => $f::<$($g,)* JSON<RPlain>>($id),
+        "created" => $f::<$($g,)* status::Created<JSON<RPlain>>>($id),
+        _ => return None } };
+}
+macro_rules! with_ex {
+    (full, $ex:expr, $rt:expr, $id:expr, $f0:ident, $f1:ident, $f2:ident, [$($p:ty),*]) => { match $ex {
+        "none" => with_rt!(full, $rt, $id, $f0, [$($p),*]),
+        "q"  => with_rt!(full, $rt, $id, $f1, [$($p,)* Query<QPlain>]),
+        "qc" => with_rt!(full, $rt, $id, $f1, [$($p,)* Query<QComp>]),
+        "j"  => with_rt!(full, $rt, $id, $f1, [$($p,)* JSON<BPlain>]),
+        "jc" => with_rt!(full, $rt, $id, $f1, [$($p,)* JSON<BComp>]),
+        "jb" => with_rt!(full, $rt, $id, $f1, [$($p,)* JSON<BFlag>]),
+        "jn" => with_rt!(full, $rt, $id, $f1, [$($p,)* JSON<BNum>]),
+        "oj" => with_rt!(full, $rt, $id, $f1, [$($p,)* Option<JSON<BPlain>>]),
+        "u"  => with_rt!(full, $rt, $id, $f1, [$($p,)* URLEncoded<FPlain>]),
+        "m"  => with_rt!(full, $rt, $id, $f1, [$($p,)* Multipart<MPlain>]),
+        "qj" => with_rt!(full, $rt, $id, $f2, [$($p,)* Query<QPlain>, JSON<BPlain>]),
+        _ => return None } };
+    (core, $ex:expr, $rt:expr, $id:expr, $f0:ident, $f1:ident, $f2:ident, [$($p:ty),*]) => { match $ex {
+        "none" => with_rt!(core, $rt, $id, $f0, [$($p),*]),
+        "q"  => with_rt!(core, $rt, $id, $f1, [$($p,)* Query<QPlain>]),
+        "j"  => with_rt!(core, $rt, $id, $f1, [$($p,)* JSON<BPlain>]),
+        "qj" => with_rt!(core, $rt, $id, $f2, [$($p,)* Query<QPlain>, JSON<BPlain>]),
+        _ => return None } };
+}
+/// the catalogue: (pv, ex, rt) -> handler.  `None` = not in the catalogue (mirrors OpenApi!InCatalogue).
+fn handler_of(pv: &str, ex: &str, rt: &str, id: i64) -> Option<Erased> {
+    Some(match pv {
+        "p0" => with_ex!(full, ex, rt, id, f0_0, f0_1, f0_2, []),
+        "u"  => with_ex!(full, ex, rt, id, fb_0, fb_1, fb_2, [u32]),
+        "i"  => with_ex!(core, ex, rt, id, fb_0, fb_1, fb_2, [i64]),
+        "s"  => with_ex!(core, ex, rt, id, fb_0, fb_1, fb_2, [String]),
+        "tu" => with_ex!(core, ex, rt, id, ft_0, ft_1, ft_2, [u32]),
+        "us" => with_ex!(core, ex, rt, id, f2_0, f2_1, f2_2, [u32, String]),
+        "si" => with_ex!(core, ex, rt, id, f2_0, f2_1, f2_2, [String, i64]),
+        "n0" if ex == "none" && rt == "text" => { macro_rules! n { ($($k:literal)*) => { match id { $($k => e(named_text::<$k>),)* _ => return None } } } n!(1 2 3 4 5 6 7 8 9 10 11 12) }
+        "nu" if ex == "none" && rt == "json" => { macro_rules! n { ($($k:literal)*) => { match id { $($k => e(named_item::<$k>),)* _ => return None } } } n!(1 2 3 4 5 6 7 8 9 10 11 12) }
+        _ => return None,
+    })
+}
+fn handler_np(pv: &str) -> usize { match pv { "p0" | "n0" => 0, "us" | "si" => 2, _ => 1 } }
+
+// =============================================================================================== fangs
+#[derive(Clone)]
+struct Plain;
+impl<I: ohkami::FangProc> ohkami::Fang<I> for Plain {
+    type Proc = PlainProc<I>;
+    fn chain(&self, inner: I) -> Self::Proc { PlainProc { inner } }
+}
+struct PlainProc<I> { inner: I }
+impl<I: ohkami::FangProc> ohkami::FangProc for PlainProc<I> {
+    async fn bite<'b>(&'b self, req: &'b mut Request) -> Response { self.inner.bite(req).await }
+}
+#[derive(Serialize, Deserialize, Clone)]
+struct Claims { sub: String }
+const SECRET: &str = "c15-secret-key";
+const USER: &str = "u1";
+const PASS: &str = "pw:1";
+fn jwt() -> JWT<Claims> { JWT::default(SECRET) }
+fn token_from_header(req: &Request) -> Option<&str> { req.headers.get("X-Token") }
+fn token_from_cookie(req: &Request) -> Option<&str> { req.headers.Cookies().find(|(k, _)| *k == "token").map(|(_, v)| v) }
+fn jwth() -> JWT<Claims> {
+    JWT::default(SECRET).get_token_by(token_from_header, openapi::SecurityScheme::APIKey("tokenHeader", openapi::security::APIKey::header("X-Token")))
+}
+fn jwtc() -> JWT<Claims> {
+    JWT::default(SECRET).get_token_by(token_from_cookie, openapi::SecurityScheme::APIKey("tokenCookie", openapi::security::APIKey::cookie("token")))
+}
+fn basic() -> BasicAuth<&'static str> { BasicAuth { username: USER, password: PASS } }
+fn valid_token() -> String { jwt().issue(Claims { sub: "c15".into() }).to_string() }
+
+macro_rules! fang1 { ($k:expr, $tag:expr, $f:ident => $body:expr) => { match $k {
+    "jwt" => { let $f = jwt(); $body }, "jwth" => { let $f = jwth(); $body }, "jwtc" => { let $f = jwtc(); $body },
+    "basic" => { let $f = basic(); $body }, "tag" => { let $f = openapi::Tag($tag); $body }, _ => { let $f = Plain; $body } } } }
+
+// =============================================================================================== concretisation
+/// abstract chars "a"/"b" -> text (images keep the byte-prefix relations), param-name tokens "x"/"y"/"z" -> names
+pub struct Table { a: &'static str, b: &'static str, names: [&'static str; 3] }
+pub fn table(seed: u64) -> Table {
+    match seed % 4 {
+        0 => Table { a: "a", b: "b", names: ["x", "y", "z"] },
+        1 => Table { a: "users", b: "2", names: ["id", "tenant", "user_id"] },
+        2 => Table { a: "x", b: "y-z", names: ["p1", "p2", "p3"] },
+        _ => Table { a: "api", b: "v_1", names: ["item.id", "org-name", "N"] },
+    }
+}
+impl Table {
+    fn chars(&self, cs: &Value) -> String { arr(cs).iter().map(|c| match s(c) { "a" => self.a, "b" => self.b, o => util::leak(o.to_string()) }).collect() }
+    fn unchars(&self, t: &str) -> Value {
+        let mut out = vec![]; let mut rest = t;
+        while !rest.is_empty() {
+            if rest.starts_with(self.a) { out.push("a"); rest = &rest[self.a.len()..] }
+            else if rest.starts_with(self.b) { out.push("b"); rest = &rest[self.b.len()..] }
+            else { return json!(["?"]) }
+        }
+        json!(out)
+    }
+    fn name(&self, cs: &Value) -> &'static str { match s(&arr(cs)[0]) { "x" => self.names[0], "y" => self.names[1], _ => self.names[2] } }
+    fn unname(&self, n: &str) -> Value { match self.names.iter().position(|x| *x == n) { Some(0) => json!(["x"]), Some(1) => json!(["y"]), Some(2) => json!(["z"]), _ => json!(["?"]) } }
+    fn route_literal(&self, segs: &Value) -> String {
+        let mut r = String::new();
+        for sg in arr(segs) { r.push('/'); if s(&sg["k"]) == "P" { r.push(':'); r.push_str(self.name(&sg["s"])) } else { r.push_str(&self.chars(&sg["s"])) } }
+        if r.is_empty() { "/".into() } else { r }
+    }
+}
+
+// =============================================================================================== application assembly
+fn with_methods(mut hs: v::HandlerSet, methods: &[Value], h: &Erased, local: &[&str], tag: &'static str) -> v::HandlerSet {
+    macro_rules! reg { ($m:ident) => { hs = match local.len() {
+        0 => hs.$m(h.clone()),
+        1 => fang1!(local[0], tag, f => hs.$m((f, h.clone()))),
+        _ => fang1!(local[0], tag, f => fang1!(local[1], tag, g => hs.$m((f, g, h.clone())))),
+    } } }
+    for m in methods { match s(m) { "GET" => reg!(GET), "POST" => reg!(POST), "PUT" => reg!(PUT), "PATCH" => reg!(PATCH), "DELETE" => reg!(DELETE), _ => {} } }
+    hs
+}
+
+fn build_app(apps: &[Value], idx: usize, t: &Table) -> Result<Ohkami, String> {
+    let app = &apps[idx - 1];
+    let fangs: Vec<&str> = arr(&app["fangs"]).iter().map(s).collect();
+    let tag: &'static str = util::leak(format!("t{idx}"));
+    let mut o = match fangs.len() {
+        0 => Ohkami::new(()),
+        1 => fang1!(fangs[0], tag, f => Ohkami::with(f, ())),
+        _ => fang1!(fangs[0], tag, f => fang1!(fangs[1], tag, g => Ohkami::with((f, g), ()))),
+    };
+    for it in arr(&app["items"]) {
+        let lit = util::leak(t.route_literal(&it["segs"]));
+        if s(&it["t"]) == "route" {
+            let sg = &it["sig"];
+            let h = handler_of(s(&sg["pv"]), s(&sg["ex"]), s(&sg["rt"]), i(&it["h"]))
+                .ok_or_else(|| format!("signature not in the catalogue: {sg} (h={})", it["h"]))?;
+            let local: Vec<&str> = arr(&it["local"]).iter().map(s).collect();
+            let ltag: &'static str = util::leak(format!("l{}", it["h"]));
+            v::apply_handlers(&mut o, with_methods(v::handler_set(lit), arr(&it["methods"]), &h, &local, ltag));
+        } else {
+            let child = build_app(apps, i(&it["app"]) as usize, t)?;
+            v::apply_by(&mut o, v::by_another(lit, child));
+        }
+    }
+    Ok(o)
+}
+
+// =============================================================================================== flattening
+fn kind_of(v: &Value) -> &'static str {
+    match v { Value::Null => "null", Value::Bool(_) => "boolean", Value::String(_) => "string", Value::Array(_) => "array", Value::Object(_) => "object",
+        Value::Number(n) => if n.is_i64() || n.is_u64() || n.as_f64().is_some_and(|f| f.fract() == 0.0) { "integer" } else { "number" } }
+}
+fn sign_of(v: &Value) -> &'static str {
+    match v.as_f64() { Some(f) if f < 0.0 => "neg", Some(f) if f == 0.0 => "zero", Some(_) => "pos", None => "" }
+}
+fn esc(t: &str) -> String { t.replace('~', "~0").replace('/', "~1") }
+/// RFC 6901 resolution of a local reference "#/a/b" inside the document
+fn resolve<'d>(doc: &'d Value, r: &str) -> Option<&'d Value> {
+    let p = r.strip_prefix('#')?;
+    if p.is_empty() { return Some(doc) }
+    let mut cur = doc;
+    for tok in p.strip_prefix('/')?.split('/') {
+        let tok = tok.replace("~1", "/").replace("~0", "~");
+        cur = match cur { Value::Object(m) => m.get(&tok)?, Value::Array(a) => a.get(tok.parse::<usize>().ok()?)?, _ => return None };
+    }
+    Some(cur)
+}
+/// one fact per keyword of a schema node: the keyword, the JSON kind of its value and what DocValid needs of the value
+fn kwfact(doc: &Value, kw: &str, val: &Value) -> Value {
+    let (strs, n, ekinds): (Vec<Value>, usize, Vec<&str>) = match val {
+        Value::String(t) => (vec![json!(t)], 0, vec![]),
+        Value::Array(a) => (a.iter().filter(|x| x.is_string()).cloned().collect(), a.len(), a.iter().map(kind_of).collect()),
+        Value::Object(m) => (m.keys().map(|k| json!(k)).collect(), m.len(), m.values().map(kind_of).collect()),
+        _ => (vec![], 0, vec![]),
+    };
+    let ok = if kw == "$ref" { val.as_str().is_some_and(|r| resolve(doc, r).is_some()) } else { true };
+    json!({"kw": kw, "kind": kind_of(val), "strs": strs, "n": n, "ekinds": ekinds, "sgn": sign_of(val), "ok": ok})
+}
+/// every schema node reachable from `root` (through the applicator keywords the generator can emit)
+fn schema_nodes(doc: &Value, root: &Value, ptr: String, place: &str, out: &mut Vec<(String, String, Value)>) {
+    let kws: Vec<Value> = match root { Value::Object(m) => m.iter().map(|(k, val)| kwfact(doc, k, val)).collect(), _ => vec![] };
+    out.push((ptr.clone(), place.to_string(), json!({"self": kind_of(root), "kws": kws})));
+    if let Value::Object(m) = root {
+        if let Some(Value::Object(ps)) = m.get("properties") { for (k, sub) in ps { schema_nodes(doc, sub, format!("{ptr}/properties/{}", esc(k)), place, out) } }
+        if let Some(sub @ (Value::Object(_) | Value::Bool(_))) = m.get("items") { schema_nodes(doc, sub, format!("{ptr}/items"), place, out) }
+        for comb in ["anyOf", "allOf", "oneOf"] {
+            if let Some(Value::Array(a)) = m.get(comb) { for (k, sub) in a.iter().enumerate() { schema_nodes(doc, sub, format!("{ptr}/{comb}/{k}"), place, out) } }
+        }
+    }
+}
+const METHODS: [&str; 8] = ["get", "put", "post", "patch", "delete", "options", "head", "trace"];
+
+struct Flat { facts: Value, ops: Vec<(String, String, Value)> /* (template, method, operation object) */ }
+
+fn flatten(doc: &Value, t: &Table) -> Flat {
+    let mut nodes: Vec<(String, String, Value)> = vec![];
+    let mut paths = vec![]; let mut ops_out = vec![];
+    let empty = Map::new();
+    let pobj = doc["paths"].as_object().unwrap_or(&empty);
+    let mut keys: Vec<&String> = pobj.keys().collect(); keys.sort();
+    for tmpl in keys {
+        let item = &pobj[tmpl];
+        let segs: Vec<Value> = if tmpl == "/" { vec![] } else { tmpl.split('/').skip(1).map(|sg|
+            match sg.strip_prefix('{').and_then(|x| x.strip_suffix('}')) {
+                Some(name) => json!({"k": "P", "s": t.unname(name)}),
+                None => json!({"k": "S", "s": t.unchars(sg)}),
+            }).collect() };
+        let mut ops = vec![]; let mut other = vec![];
+        for (mk, op) in item.as_object().unwrap_or(&empty) {
+            if !METHODS.contains(&mk.as_str()) { other.push(json!(mk)); continue }
+            let base = format!("/paths/{}/{}", esc(tmpl), mk);
+            let mut params = vec![];
+            for (k, p) in arr(&op["parameters"]).iter().enumerate() {
+                let name = s(&p["name"]);
+                let pin = s(&p["in"]);
+                params.push(json!({"name": name, "abs": if pin == "path" { t.unname(name) } else { json!([]) }, "in": pin,
+                                   "required": p["required"].as_bool().unwrap_or(false), "type": s(&p["schema"]["type"]), "hasSchema": p.get("schema").is_some()}));
+                if let Some(sc) = p.get("schema") { schema_nodes(doc, sc, format!("{base}/parameters/{k}/schema"), "param", &mut nodes) }
+            }
+            let mut body = vec![];
+            if let Some(rb) = op.get("requestBody") {
+                for (mime, c) in rb["content"].as_object().unwrap_or(&empty) {
+                    body.push(json!(mime));
+                    if let Some(sc) = c.get("schema") { schema_nodes(doc, sc, format!("{base}/requestBody/content/{}/schema", esc(mime)), "reqbody", &mut nodes) }
+                }
+            }
+            let mut statuses = vec![];
+            for (code, r) in op["responses"].as_object().unwrap_or(&empty) {
+                let mut mimes = vec![];
+                for (mime, c) in r["content"].as_object().unwrap_or(&empty) {
+                    mimes.push(json!(mime));
+                    if let Some(sc) = c.get("schema") { schema_nodes(doc, sc, format!("{base}/responses/{code}/content/{}/schema", esc(mime)), "response", &mut nodes) }
+                }
+                for (hn, h) in r["headers"].as_object().unwrap_or(&empty) {
+                    if let Some(sc) = h.get("schema") { schema_nodes(doc, sc, format!("{base}/responses/{code}/headers/{}/schema", esc(hn)), "header", &mut nodes) }
+                }
+                statuses.push(json!({"code": code, "mimes": mimes}));
+            }
+            let security: Vec<Value> = arr(&op["security"]).iter().flat_map(|req| req.as_object().map(|m| m.keys().map(|k| json!(k)).collect::<Vec<_>>()).unwrap_or_default()).collect();
+            ops.push(json!({"method": mk.to_uppercase(), "params": params, "hasBody": op.get("requestBody").is_some(), "body": body,
+                            "bodyreq": op["requestBody"]["required"].as_bool().unwrap_or(false), "statuses": statuses,
+                            "hasResponses": op.get("responses").is_some_and(|r| r.is_object()),
+                            "security": security, "tags": op["tags"].as_array().cloned().unwrap_or_default(), "opid": s(&op["operationId"])}));
+            ops_out.push((tmpl.clone(), mk.clone(), op.clone()));
+        }
+        paths.push(json!({"raw": tmpl, "tmpl": segs, "ops": ops, "other": other}));
+    }
+    for (name, sc) in doc["components"]["schemas"].as_object().unwrap_or(&empty) {
+        schema_nodes(doc, sc, format!("/components/schemas/{}", esc(name)), "component", &mut nodes);
+    }
+    // identical node facts (same place, same keyword facts) are reported once, with a count and the first pointer
+    let mut dedup: Vec<(String, Value, usize)> = vec![];
+    for (ptr, place, n) in nodes {
+        let key = json!({"place": place, "self": n["self"], "kws": n["kws"]});
+        match dedup.iter_mut().find(|(_, k, _)| k["self"] == key["self"] && k["kws"] == key["kws"]) { Some(d) => d.2 += 1, None => dedup.push((ptr, key, 1)) }
+    }
+    let nodes: Vec<Value> = dedup.into_iter().map(|(ptr, k, c)| json!({"ptr": ptr, "place": k["place"], "self": k["self"], "kws": k["kws"], "cnt": c})).collect();
+    let schemes: Vec<Value> = doc["components"]["securitySchemes"].as_object().unwrap_or(&empty).iter()
+        .map(|(n, sc)| json!({"name": n, "type": s(&sc["type"]), "scheme": s(&sc["scheme"]), "in": s(&sc["in"]), "pname": s(&sc["name"])})).collect();
+    let facts = json!({
+        "version": s(&doc["openapi"]), "isObject": doc.is_object(), "hasInfo": doc["info"].is_object(),
+        "hasTitle": doc["info"]["title"].is_string(), "hasInfoVersion": doc["info"]["version"].is_string(), "hasPaths": doc["paths"].is_object(),
+        "paths": paths, "schemes": schemes, "nodes": nodes,
+    });
+    Flat { facts, ops: ops_out }
+}
+
+// =============================================================================================== requests
+/// an instance of a schema of the document (only what the generator can emit; lenient about type names)
+fn instance(doc: &Value, sc: &Value, depth: usize) -> Value {
+    if depth > 8 { return json!("s") }
+    if let Some(r) = sc.get("$ref").and_then(|r| r.as_str()) { return resolve(doc, r).map(|t| instance(doc, t, depth + 1)).unwrap_or(json!("s")) }
+    if let Some(ev) = sc.get("enum").and_then(|x| x.as_array()).and_then(|a| a.first()) { return ev.clone() }
+    match s(&sc["type"]) {
+        "object" => {
+            let mut m = Map::new();
+            for r in arr(&sc["required"]) { let k = s(r); m.insert(k.to_string(), sc["properties"].get(k).map(|p| instance(doc, p, depth + 1)).unwrap_or(json!("s"))); }
+            Value::Object(m)
+        }
+        "array" => { let n = sc["minItems"].as_u64().unwrap_or(1).max(1); Value::Array((0..n).map(|_| sc.get("items").map(|it| instance(doc, it, depth + 1)).unwrap_or(json!("s"))).collect()) }
+        "integer" | "number" => json!(1),
+        "boolean" | "bool" => json!(true),
+        "string" => json!("s"),
+        _ => {
+            for comb in ["oneOf", "anyOf", "allOf"] { if let Some(first) = sc.get(comb).and_then(|x| x.as_array()).and_then(|a| a.first()) { return instance(doc, first, depth + 1) } }
+            json!("s")
+        }
+    }
+}
+fn scalar(v: &Value) -> String { match v { Value::String(t) => t.clone(), other => other.to_string() } }
+fn form_pairs(v: &Value) -> Vec<(String, String)> { v.as_object().map(|m| m.iter().map(|(k, x)| (k.clone(), scalar(x))).collect()).unwrap_or_default() }
+
+struct Req { method: String, path: String, headers: Vec<(String, String)>, body: Vec<u8> }
+impl Req {
+    fn bytes(&self) -> Vec<u8> {
+        let mut b = format!("{} {} HTTP/1.1\r\nHost: c15.test\r\n", self.method, self.path).into_bytes();
+        for (k, v) in &self.headers { b.extend_from_slice(format!("{k}: {v}\r\n").as_bytes()) }
+        if !self.body.is_empty() { b.extend_from_slice(format!("Content-Length: {}\r\n", self.body.len()).as_bytes()) }
+        b.extend_from_slice(b"\r\n"); b.extend_from_slice(&self.body); b
+    }
+    fn show(&self) -> String { util::clip(&format!("{} {} {:?} body={}", self.method, self.path, self.headers.iter().map(|(k, _)| k.as_str()).collect::<Vec<_>>(), String::from_utf8_lossy(&self.body)), 300) }
+}
+fn body_for(mime: &str, inst: &Value, rq: &mut Req) {
+    if mime.starts_with("application/json") {
+        rq.headers.push(("Content-Type".into(), "application/json".into())); rq.body = serde_json::to_vec(inst).unwrap();
+    } else if mime.starts_with("application/x-www-form-urlencoded") {
+        rq.headers.push(("Content-Type".into(), mime.into()));
+        rq.body = form_pairs(inst).iter().map(|(k, v)| format!("{k}={v}")).collect::<Vec<_>>().join("&").into_bytes();
+    } else if mime.starts_with("multipart/form-data") {
+        rq.headers.push(("Content-Type".into(), "multipart/form-data; boundary=XbX".into()));
+        let mut b = String::new();
+        for (k, v) in form_pairs(inst) { b.push_str(&format!("--XbX\r\nContent-Disposition: form-data; name=\"{k}\"\r\n\r\n{v}\r\n")) }
+        b.push_str("--XbX--\r\n"); rq.body = b.into_bytes();
+    } else {
+        rq.headers.push(("Content-Type".into(), mime.into())); rq.body = scalar(inst).into_bytes();
+    }
+}
+/// the request a client derives from one documented operation: `{p}` := 1, required query parameters and the request
+/// body instantiated from their schemas, credentials for every security scheme the operation names
+fn request_from_doc(doc: &Value, tmpl: &str, method: &str, op: &Value) -> Req {
+    let mut path: String = tmpl.split('/').map(|sg| if sg.starts_with('{') && sg.ends_with('}') { "1" } else { sg }).collect::<Vec<_>>().join("/");
+    if path.is_empty() { path.push('/') }
+    let mut rq = Req { method: method.to_uppercase(), path, headers: vec![], body: vec![] };
+    let q: Vec<String> = arr(&op["parameters"]).iter().filter(|p| s(&p["in"]) == "query" && p["required"].as_bool().unwrap_or(false))
+        .map(|p| format!("{}={}", s(&p["name"]), scalar(&instance(doc, &p["schema"], 0)))).collect();
+    if !q.is_empty() { rq.path = format!("{}?{}", rq.path, q.join("&")) }
+    if let Some((mime, c)) = op["requestBody"]["content"].as_object().and_then(|m| m.iter().next()) {
+        body_for(mime, &instance(doc, &c["schema"], 0), &mut rq);
+    }
+    let mut cookies = vec![];
+    let mut used: Vec<String> = vec![];
+    for req in arr(&op["security"]) {
+        for name in req.as_object().map(|m| m.keys().cloned().collect::<Vec<_>>()).unwrap_or_default() {
+            if used.contains(&name) { continue }   // every scheme the operation names, once
+            used.push(name.clone());
+            let sc = &doc["components"]["securitySchemes"][&name];
+            match (s(&sc["type"]), s(&sc["scheme"])) {
+                ("http", "bearer") => rq.headers.push(("Authorization".into(), format!("Bearer {}", valid_token()))),
+                ("http", "basic") => rq.headers.push(("Authorization".into(), format!("Basic {}", base64::engine::general_purpose::STANDARD.encode(format!("{USER}:{PASS}"))))),
+                ("apiKey", _) => match s(&sc["in"]) {
+                    "header" => rq.headers.push((s(&sc["name"]).to_string(), valid_token())),
+                    "cookie" => cookies.push(format!("{}={}", s(&sc["name"]), valid_token())),
+                    "query" => { let sep = if rq.path.contains('?') { '&' } else { '?' }; rq.path = format!("{}{sep}{}={}", rq.path, s(&sc["name"]), valid_token()) }
+                    _ => {}
+                },
+                _ => {}
+            }
+        }
+    }
+    if !cookies.is_empty() { rq.headers.push(("Cookie".into(), cookies.join("; "))) }
+    rq
+}
+/// the request for a registered (route, method) derived from the SCENARIO (signature tag and guarding fangs)
+fn request_from_scn(lit: &str, method: &str, sig: &Value, guards: &[&str]) -> Req {
+    let mut path: String = lit.split('/').map(|sg| if sg.starts_with(':') { "1" } else { sg }).collect::<Vec<_>>().join("/");
+    if path.is_empty() { path.push('/') }
+    let mut rq = Req { method: method.to_string(), path, headers: vec![], body: vec![] };
+    match s(&sig["ex"]) { "q" | "qj" => rq.path.push_str("?q=s&n=1"), "qc" => rq.path.push_str("?page=1&tag=s"), _ => {} }
+    match s(&sig["ex"]) {
+        "j" | "qj" | "oj" => body_for("application/json", &json!({"name": "s", "age": 1, "tags": ["s"]}), &mut rq),
+        "jc" => body_for("application/json", &json!({"title": "s", "owner": {"id": 1, "name": "s"}, "co": []}), &mut rq),
+        "jb" => body_for("application/json", &json!({"name": "s", "active": true}), &mut rq),
+        "jn" => body_for("application/json", &json!({"age": 1, "codes": [1]}), &mut rq),
+        "u" => body_for("application/x-www-form-urlencoded", &json!({"user": "s", "n": 1}), &mut rq),
+        "m" => body_for("multipart/form-data", &json!({"title": "s"}), &mut rq),
+        _ => {}
+    }
+    let mut cookie = false;
+    for g in guards { match *g {
+        "jwt" => if !rq.headers.iter().any(|(k, _)| k == "Authorization") { rq.headers.push(("Authorization".into(), format!("Bearer {}", valid_token()))) },
+        "basic" => if !rq.headers.iter().any(|(k, _)| k == "Authorization") { rq.headers.push(("Authorization".into(), format!("Basic {}", base64::engine::general_purpose::STANDARD.encode(format!("{USER}:{PASS}"))))) },
+        "jwth" => if !rq.headers.iter().any(|(k, _)| k == "X-Token") { rq.headers.push(("X-Token".into(), valid_token())) },
+        "jwtc" => if !cookie { cookie = true; rq.headers.push(("Cookie".into(), format!("token={}", valid_token()))) },
+        _ => {}
+    } }
+    rq
+}
+fn exec(router: &v::VRouter, raw: &[u8]) -> (u16, i64) {
+    LOG.with(|l| l.borrow_mut().clear());
+    let out = util::block_on(async {
+        let mut req = v::VRequest::new();
+        let mut rd = raw;
+        let res = match req.read(&mut rd).await { Ok(Some(())) => req.handle(router).await, Ok(None) => Response::new(ohkami::Status::Gone), Err(e) => e };
+        let mut out = Vec::new();
+        v::send(res, &mut out).await;
+        out
+    });
+    let p = util::parse_response(&out, false);
+    (p.status, LOG.with(|l| l.borrow().first().copied().unwrap_or(0)))
+}
+
+// =============================================================================================== run
+fn collect_routes<'a>(apps: &'a [Value], idx: usize, prefix: String, guards: Vec<&'a str>, t: &Table, out: &mut Vec<(String, &'a Value, Vec<&'a str>)>) {
+    let app = &apps[idx - 1];
+    let mut g = guards; g.extend(arr(&app["fangs"]).iter().map(s));
+    for it in arr(&app["items"]) {
+        let lit = t.route_literal(&it["segs"]);
+        let full = if prefix.is_empty() || prefix == "/" { lit.clone() } else if lit == "/" { prefix.clone() } else { format!("{prefix}{lit}") };
+        if s(&it["t"]) == "route" { let mut gg = g.clone(); gg.extend(arr(&it["local"]).iter().map(s)); out.push((full, it, gg)) }
+        else { collect_routes(apps, i(&it["app"]) as usize, full, g.clone(), t, out) }
+    }
+}
+
+pub fn run(scn: &Value) -> Value {
+    let apps = arr(&scn["apps"]);
+    let seed = scn["seed"].as_u64().unwrap_or_else(|| scn["id"].as_u64().unwrap_or(0));
+    let t = table(seed);
+    let o = match build_app(apps, 1, &t) { Ok(o) => o, Err(e) => return json!({"kind": "tool-error", "what": e}) };
+    // ---- the document, from the real generator
+    let bytes = o.__openapi_document_bytes__(openapi::OpenAPI { title: "c15", version: "0.0.1", servers: &[openapi::Server::at("http://c15.test")] });
+    let doc: Value = match serde_json::from_slice(&bytes) {
+        Ok(d) => d,
+        Err(e) => return json!({"kind": "not-json", "where": util::clip(&e.to_string(), 80)}),
+    };
+    let flat = flatten(&doc, &t);
+    // ---- reachability: one request per documented operation, built from the document
+    let router = v::finalize(o);
+    let mut reach = vec![];
+    for (tmpl, method, op) in &flat.ops {
+        let rq = request_from_doc(&doc, tmpl, method, op);
+        let (status, h) = exec(&router, &rq.bytes());
+        reach.push(json!({"raw": tmpl, "method": method.to_uppercase(), "h": h, "status": status, "req": util::clip(&rq.show(), 140)}));
+    }
+    // ---- every registered (route, method), requested as the scenario describes it
+    let mut routes = vec![]; collect_routes(apps, 1, String::new(), vec![], &t, &mut routes);
+    let mut probes = vec![];
+    for (lit, it, guards) in &routes {
+        for m in arr(&it["methods"]) {
+            let rq = request_from_scn(lit, s(m), &it["sig"], guards);
+            let (status, h) = exec(&router, &rq.bytes());
+            probes.push(json!({"h": it["h"], "method": m, "ran": h, "status": status, "req": util::clip(&rq.show(), 140)}));
+        }
+    }
+    let mut obs = flat.facts;
+    obs["kind"] = json!("openapi"); obs["reach"] = json!(reach); obs["probes"] = json!(probes);
+    obs["table"] = json!([t.a, t.b, t.names[0], t.names[1], t.names[2]]);
+    obs["bytes"] = json!(bytes.len());
+    if std::env::var("VH_C15_DUMP").is_ok() { eprintln!("{}", String::from_utf8_lossy(&bytes)) }
+    obs
+}
+
+// =============================================================================================== random generator
+const PVS: [&str; 7] = ["p0", "u", "i", "s", "tu", "us", "si"];
+const EX_FULL: [&str; 11] = ["none", "q", "qc", "j", "jc", "jb", "jn", "oj", "u", "m", "qj"];
+const EX_CORE: [&str; 4] = ["none", "q", "j", "qj"];
+const RT_FULL: [&str; 9] = ["text", "string", "json", "jsonc", "jvec", "created", "nocontent", "result", "resultc"];
+const RT_CORE: [&str; 3] = ["text", "json", "created"];
+const FANGS: [&str; 6] = ["jwt", "jwth", "jwtc", "basic", "tag", "plain"];
+
+/// random applications beyond TLC's bounds: up to 4 applications nested up to 3 deep, up to 4 routes each, depth <= 3,
+/// every method, every signature of the catalogue, up to two fangs per application and per route
+pub fn gen(rng: &mut Rng, idx: usize) -> Value {
+    let napps = rng.range(1, 4);
+    let segstr = [vec!["a"], vec!["b"], vec!["a", "b"], vec!["b", "a"], vec!["a", "a"]];
+    let names = ["x", "y", "z"];
+    let mut items: Vec<Vec<Value>> = vec![vec![]; napps];
+    let mut pabove = vec![0usize; napps];
+    let mut gabove: Vec<Vec<&str>> = vec![vec![]; napps];
+    // fangs of an application / a route: no "jwt" together with "basic" on one route (both live in `Authorization`)
+    let pick_fangs = |rng: &mut Rng, above: &[&str]| -> Vec<&'static str> {
+        let mut out: Vec<&'static str> = vec![];
+        for _ in 0..(if rng.chance(1, 2) { 0 } else { rng.range(1, 2) }) {
+            let f = *rng.pick(&FANGS);
+            let clash = |a: &str, b: &str| (a == "jwt" && b == "basic") || (a == "basic" && b == "jwt");
+            if above.iter().any(|g| clash(g, f)) || out.iter().any(|g| clash(g, f)) { continue }
+            out.push(f);
+        }
+        out
+    };
+    let mut fangs: Vec<Vec<&str>> = vec![vec![]; napps];
+    fangs[0] = pick_fangs(rng, &[]);
+    let seg = |rng: &mut Rng, allow_p: bool| -> Value { if allow_p && rng.chance(2, 5) { json!({"k": "P", "s": [*rng.pick(&names)]}) } else { json!({"k": "S", "s": rng.pick(&segstr).clone()}) } };
+    let same = |a: &Value, b: &Value| s(&a["k"]) == s(&b["k"]) && (s(&a["k"]) == "P" || a["s"] == b["s"]);
+    let under = |x: &[Value], pre: &[Value]| x.len() >= pre.len() && pre.iter().zip(x).all(|(p, y)| same(p, y));
+    let mut mounted = vec![false; napps]; mounted[0] = true;
+    for b in 1..napps {
+        let a = rng.below(b);
+        if !mounted[a] { continue }
+        let n = rng.range(1, 2);
+        let mut pre = vec![]; let mut np = 0;
+        for _ in 0..n { let sg = seg(rng, pabove[a] + np < 2); if s(&sg["k"]) == "P" { np += 1 } pre.push(sg) }
+        if items[a].iter().any(|it| under(arr(&it["segs"]), &pre) || (s(&it["t"]) == "mount" && under(&pre, arr(&it["segs"])))) { continue }
+        pabove[b] = pabove[a] + np; mounted[b] = true;
+        gabove[b] = gabove[a].iter().chain(fangs[a].iter()).copied().collect();
+        fangs[b] = pick_fangs(rng, &gabove[b]);
+        items[a].push(json!({"t": "mount", "segs": pre, "methods": [], "local": [], "h": 0, "app": b + 1, "sig": {"pv": "p0", "ex": "none", "rt": "text"}}));
+    }
+    let mut nexth = 1i64;
+    for a in 0..napps {
+        if !mounted[a] { items[a].push(json!({"t": "route", "segs": [], "methods": ["GET"], "local": [], "h": 900 + a, "app": 0, "sig": {"pv": "p0", "ex": "none", "rt": "text"}})); continue }
+        let nr = rng.range(1, 4);
+        for k in 0..nr {
+            let n = rng.below(4);
+            let mut r = vec![]; let mut np = 0;
+            for _ in 0..n { let sg = seg(rng, pabove[a] + np < 2); if s(&sg["k"]) == "P" { np += 1 } r.push(sg) }
+            let clash = items[a].iter().any(|it| if s(&it["t"]) == "route" { let x = arr(&it["segs"]); x.len() == r.len() && under(x, &r) } else { under(&r, arr(&it["segs"])) });
+            if clash { if k + 1 < nr || items[a].iter().any(|it| s(&it["t"]) == "route") { continue } else { r = vec![json!({"k": "S", "s": ["b", "b", "b"]})]; np = 0 } }
+            let total = pabove[a] + np;
+            let pvs: Vec<&str> = PVS.iter().copied().filter(|p| handler_np(p) <= total).collect();
+            // mostly the handler takes every param of the full route; sometimes fewer
+            let exact: Vec<&str> = pvs.iter().copied().filter(|p| handler_np(p) == total).collect();
+            let pv = if !exact.is_empty() && rng.chance(3, 4) { *rng.pick(&exact) } else { *rng.pick(&pvs) };
+            let full = pv == "p0" || pv == "u";
+            let ex = if full { *rng.pick(&EX_FULL) } else { *rng.pick(&EX_CORE) };
+            let rt = if full { *rng.pick(&RT_FULL) } else { *rng.pick(&RT_CORE) };
+            let ms: Vec<&str> = match rng.below(6) { 0 => vec!["GET"], 1 => vec!["POST"], 2 => vec!["GET", "POST"], 3 => vec!["PUT", "DELETE"], 4 => vec!["PATCH"], _ => vec!["GET", "PUT", "POST", "PATCH", "DELETE"] };
+            let above: Vec<&str> = gabove[a].iter().chain(fangs[a].iter()).copied().collect();
+            let local = pick_fangs(rng, &above);
+            items[a].push(json!({"t": "route", "segs": r, "methods": ms, "local": local, "h": nexth, "app": 0, "sig": {"pv": pv, "ex": ex, "rt": rt}})); nexth += 1;
+        }
+    }
+    json!({"id": idx, "seed": rng.next() % 1000, "src": "random",
+           "apps": (0..napps).map(|a| json!({"fangs": fangs[a], "items": items[a]})).collect::<Vec<_>>()})
+}
